@@ -96,6 +96,10 @@ def _apply(objs, op, values):
         p = _fixp(arg)
         o.properties[p["attr"]] = Property(drive.build_element(p["elem"]), required=bool(p["required"]),
                                            source=(p["source"] if p["source"] != p["attr"] else None))
+    elif name == "updateprop":
+        p = _fixp(arg)
+        o.properties.update({p["attr"]: Property(drive.build_element(p["elem"]), required=bool(p["required"]),
+                                                 source=(p["source"] if p["source"] != p["attr"] else None))})
     elif name == "delprop":
         del o.properties[arg[0]]
     elif name == "moveprop":
@@ -473,7 +477,7 @@ def run(pid, tier, replay_file=None):
         if op["op"] == "validate" and not _same(rec["out"], st["last"]):
             drift["outcome"] += 1
         arg = op["arg"]
-        arg_t = tlajson_to_tla(_fixp(arg)) if op["op"] == "putprop" else tlajson_to_tla(arg)
+        arg_t = tlajson_to_tla(_fixp(arg)) if op["op"] in ("putprop", "updateprop") else tlajson_to_tla(arg)
         events.append((eid, '[id |-> %d, op |-> %s, x |-> %s, arg |-> %s, pre |-> %s, post |-> %s, out |-> %s, '
                             'again |-> %s, fresh |-> %s, freshspec |-> %s, flat |-> %s, flags |-> %s, pure |-> %s]'
                        % (eid, codec.tla_str(op["op"]), codec.tla_str(op["x"]), arg_t, _heap_tla(rec["pre"]),
@@ -628,7 +632,7 @@ def _h(hist):
     out = []
     for op in hist:
         a = op["arg"]
-        if op["op"] == "putprop":
+        if op["op"] in ("putprop", "updateprop"):
             a = a["attr"] + ("!" if a["required"] else "") + ":" + a["elem"]["cls"]
         elif op["op"] == "validate":
             a = "v%d" % a[1]
